@@ -58,9 +58,13 @@ KINDS = ['identity', 'scaled', 'prefix', 'range', 'fullrank', 'dyadic', 'deficie
 def gen_case(r, maxn):
     ms = []
     k = r.randint(1, 3)
+    twin = r.random() < 0.35       # several workloads of the same shape over the same attribute (identity, then prefix sums, ...)
     for _ in range(k):
         n = r.choice([1, 2, 3, 4, 5, 8, 8, 12, 16, maxn])
         kind = r.choice(KINDS)
+        if twin and ms:
+            n = ms[0]['Q'].shape[1]
+            kind = r.choice(['identity', 'scaled', 'prefix', 'fullrank', 'dyadic', 'deficient-ones'] if n > 1 else KINDS)
         if kind == 'range' and n > 12:
             n = 12
         Q = gen_matrix(r, n, kind)
@@ -98,15 +102,23 @@ def impl_totals(r, ms):
     from mbi import Domain, FactoredInference, LocalInference
     from mbi import public_inference
     out = {}
-    # one attribute per measurement so that any sizes can coexist
-    attrs = [f'a{i}' for i in range(len(ms))]
-    dom = Domain(attrs, [m['Q'].shape[1] for m in ms])
+    # one attribute per size (measurements of the same width share their attribute half of the time), so that any sizes can coexist
+    attrs, sizes, by_size = [], {}, {}
+    for i, m in enumerate(ms):
+        n = m['Q'].shape[1]
+        if n in by_size and r.random() < 0.6:
+            attrs.append(by_size[n])
+        else:
+            a = f'a{i}'
+            attrs.append(a); sizes[a] = n; by_size[n] = a
+    dom = Domain(list(sizes), [sizes[a] for a in sizes])
     meas, kinds = [], []
     for a, m in zip(attrs, ms):
         Qs, k = spell(r, m['Q'])
         kinds.append(k)
         meas.append((Qs, m['y'], m['noise'], (a,)))
     with np.errstate(all='ignore'):
+        SHARED[0] += len(ms) - len(sizes)
         eng = FactoredInference(dom, iters=1)
         eng._setup(eng.fix_measurements(list(meas)), None)
         out['FactoredInference'] = float(eng.model.total)
@@ -115,6 +127,9 @@ def impl_totals(r, ms):
         out['LocalInference'] = float(loc.model.total)
         out['PublicInference'] = float(public_inference.estimate_total(list(meas)))
     return out, kinds
+
+
+SHARED = [0]
 
 
 def given_total_used(r):
@@ -233,7 +248,11 @@ def history_totals(res, drv, r, tier):
         calls = [([(diff, diff @ xa, 1.0, ('a',))], None, 1.0),                                       # no query expresses the count
                  ([(np.eye(n1), xa.copy(), 1.0, ('a',)), (np.tril(np.ones((n2, n2))), np.tril(np.ones((n2, n2))) @ xb, 2.0, ('b',))], None, float(N)),
                  ([(np.eye(n1), xa.copy(), 1.0, ('a',))], 55.5, 55.5),
-                 ([(np.eye(n2), xb.copy(), 0.5, ('b',))], None, float(N))]
+                 ([(np.eye(n2), xb.copy(), 0.5, ('b',))], None, float(N)),
+                 # other workloads of the same shape over the same attribute as an earlier / later call
+                 ([(np.tril(np.ones((n1, n1))), np.tril(np.ones((n1, n1))) @ xa, 1.0, ('a',))], None, float(N)),
+                 ([(np.vstack([diff, np.zeros((1, n1))]), np.vstack([diff, np.zeros((1, n1))]) @ xa, 1.0, ('a',))], None, 1.0),
+                 ([(2.0 * np.eye(n2), 2.0 * xb, 0.5, ('b',))], None, float(N))]
         r.shuffle(calls)
         for warm in (False, True):
             for cls, kw in ((FactoredInference, {}), (LocalInference, {'marginal_oracle': 'convex'})):
